@@ -616,6 +616,70 @@ def huge_batch_checks(ctx, stock):
     return fails, runs
 
 
+def very_large_batch_checks(ctx, stock):
+    """The property ranges over batch_size 1..large: batch sizes around and far above 2^20 with threads >= 2 on a small model
+    (a batch only *reserves* batch_size entries per buffer -- about 90 bytes each, untouched -- so these sizes cost address space,
+    not memory).  Runs under an address-space limit; a refused allocation (std::bad_alloc) is not a verdict.  Oracle unchanged:
+    output and exit status equal to threads:1, no crash, no hang."""
+    rng = ctx.rng.fork()
+    d = os.path.join(ctx.scratch, "vlarge")
+    os.makedirs(d, exist_ok=True)
+    inp = gen_tool_input(rng, d, 0)
+    sizes = [1 << 20, (1 << 20) + 1, 1500000, 2000000, 3000000, 1 << 22]
+    plans = [(["union"], inp["vocab"]), (["single"], inp["vocab"]), (["multiple"], inp["vocab"]), (["union", "phrase", "context"], inp["pvocab"])]
+    rng.shuffle(plans)
+    fails, runs, skipped = [], 0, 0
+    for mode, voc in plans[:ctx.pick(2, 4)]:
+        multi = mode[0] == "multiple"
+        nout = inp["nsent"] if multi else 1
+        args = mode + [inp["fmt"]]
+        refp = os.path.join(d, "ref.")
+        for f in os.listdir(d):
+            if f.startswith("ref.") or f.startswith("thr."):
+                os.remove(os.path.join(d, f))
+        b1 = rng.choice(sizes)
+        cmdref = "exec %s %s threads:1 batch_size:%d model:%s %s < %s" % (stock, " ".join(args), b1, inp["model"], refp, voc)
+        rc1, _ = run_filter(cmdref, 60)
+        runs += 1
+        ref = read_outputs(refp, nout) if multi else [open(refp, "rb").read() if os.path.exists(refp) else None]
+        cfgs = [(k, b) for k in (2, 3) for b in sizes]
+        rng.shuffle(cfgs)
+        cfgs = [(2, (1 << 20) + 1)] + cfgs if mode == plans[0][0] else cfgs
+        for k, b in cfgs[:ctx.pick(4, 10)]:
+            for f in os.listdir(d):
+                if f.startswith("thr."):
+                    os.remove(os.path.join(d, f))
+            thrp = os.path.join(d, "thr.")
+            cmd = "ulimit -v 12000000; exec %s %s threads:%d batch_size:%d model:%s %s < %s" % (stock, " ".join(args), k, b, inp["model"], thrp, voc)
+            rc, err = run_filter(cmd, 60)
+            runs += 1
+            if "bad_alloc" in err or "annot allocate" in err:
+                skipped += 1          # the sandbox refused the reservation: no verdict
+                continue
+            got = read_outputs(thrp, nout) if multi else [open(thrp, "rb").read() if os.path.exists(thrp) else None]
+            what = None
+            if rc == 124:
+                what = ("hang", "did not terminate")
+            elif rc != rc1:
+                what = ("exit-status", "exits %d, threads:1 exits %d" % (rc, rc1))
+            elif got != ref:
+                what = ("output-differs", "output differs from the threads:1 result")
+            if what:
+                keepd = os.path.join(ctx.replay_dir, "vlargefiles-%d-%d" % (ctx.seed, len(fails)))
+                os.makedirs(keepd, exist_ok=True)
+                shutil.copy(inp["model"], keepd)
+                shutil.copy(voc, keepd)
+                fails.append(("filter:%s:%s:very-large-batch:%s" % (inp["fmt"], "+".join(mode), what[0]),
+                              "threads:%d batch_size:%d on a small model: %s" % (k, b, what[1]),
+                              {"cmd": cmd.replace(d, keepd).replace(stock, "bin/filter"), "reference_cmd": cmdref.replace(d, keepd).replace(stock, "bin/filter"),
+                               "files": keepd, "model": os.path.join(keepd, os.path.basename(inp["model"])), "vocab": os.path.join(keepd, os.path.basename(voc)),
+                               "args": args, "threads": k, "batch_size": b, "nout": nout, "stderr_tail": err[-800:]}))
+                break
+        if fails:
+            break
+    return fails, runs, skipped
+
+
 def output_fault_checks(ctx, stock):
     """The output device fails while the filter runs: /dev/full (every write: ENOSPC) and a regular file under a small `ulimit -f`
     with SIGXFSZ ignored (EFBIG part-way).  The property's oracle: the run terminates for every thread count (the limit is the
@@ -773,6 +837,11 @@ def run(ctx):
     truns += bruns
     tnon += bruns
     hfails, hruns = huge_batch_checks(ctx, stock)
+    vfails, vruns, vskipped = very_large_batch_checks(ctx, stock)
+    tfails += vfails
+    truns += vruns
+    ctx.coverage["very_large_batch_runs"] = vruns
+    ctx.coverage["very_large_batch_runs_without_verdict_allocation_refused"] = vskipped
     ofails, oruns = output_fault_checks(ctx, stock)
     tfails += hfails + ofails
     truns += hruns + oruns
@@ -800,7 +869,7 @@ def run(ctx):
     ctx.coverage["input_distribution"] = ("Controller: threads 2..8, batch_size 1..5, 1..4 sections (or one raw section) of size in {0, b-1, b, b+1, 2b, Qb, Qb+1, (Q+1)b, random}, "
                                           "lines of equal length in 2/3 of the cases, calls all / single / mixed / sparse over 1..3 outputs.  Tool: ARPA order 1..3 or raw counts, "
                                           "3..16 words, 1..3 sentences, section sizes aimed at multiples of 1..12; threads 2..8 x batch_size in {1,2,3, section size, +-1, 5000, 25000}; "
-                                          "2/3 of the threaded runs with jitter at the PCQueue scheduling points; plus one ~2.5 MB model (> 2 FilePiece windows) in 8-11 mode/format combinations x threads 2..8 x batch 7..25000 x 2-4 repetitions (file and pipe input), 5-8 runs of a ThreadSanitizer build, batch sizes 65537..200000 on a 230000-line section of mostly <= 15-byte lines (stock and AddressSanitizer builds), and output faults (/dev/full, ulimit -f) for threads 1, 2, 4")
+                                          "2/3 of the threaded runs with jitter at the PCQueue scheduling points; plus one ~2.5 MB model (> 2 FilePiece windows) in 8-11 mode/format combinations x threads 2..8 x batch 7..25000 x 2-4 repetitions (file and pipe input), 5-8 runs of a ThreadSanitizer build, batch sizes 65537..200000 on a 230000-line section of mostly <= 15-byte lines (stock and AddressSanitizer builds), output faults (/dev/full, ulimit -f) for threads 1, 2, 4, and batch sizes 2^20 .. 2^22 with threads 2, 3 on a small model")
     for c, o in list(zip(cases, iout))[:3]:
         ctx.sample({"case": c[:300], "impl": o[:300]})
     ctx.assumptions += ["PCQueue delivers every batch exactly once (property C17); boost primitives, sequential consistency",
@@ -813,7 +882,7 @@ def run(ctx):
                         "inputs larger than the FilePiece window, and the ThreadSanitizer build)"]
     for sig, what, rep in spec_fail[:4]:
         ctx.report(sig, what, rep)
-    for sig, what, rep in tfails[:9]:
+    for sig, what, rep in tfails[:10]:
         ctx.report(sig, what, rep)
     if not spec_fail and not tfails:
         if mismatches:
